@@ -228,8 +228,49 @@ func bindValue(s *Summary, c *bindCase) {
 	binding.ResetValidator()
 }
 
+type bindRequired struct {
+	Token string `json:"token" xml:"token" form:"token" query:"token" validate:"required"`
+}
+
+// bindGating: a successful bind implies validation passed whenever a validator is enabled - also when the request
+// carries no parameter at all; and a body of unknown length (chunked) is still a body
+func bindGating(s *Summary) {
+	for _, validator := range []bool{true, false} {
+		if validator {
+			binding.ResetValidator()
+		} else {
+			binding.DisableValidator()
+		}
+		cases := []*http.Request{mkReq("GET", "/b", "", ""), mkReq("DELETE", "/b", "", ""), mkReq("POST", "/b", "", "application/x-www-form-urlencoded")}
+		for _, req := range cases {
+			var v bindRequired
+			err, pan := safeBind(func() error { return binding.Auto(req, &v) })
+			s.Compared++
+			if pan != nil || (validator && err == nil) || (!validator && err != nil) {
+				s.mismatch(map[string]any{"kind": "bind", "aspect": "validation", "what": fmt.Sprintf(
+					"%s request without any parameter bound into a struct with a required field, validator=%v: err=%v panic=%v", req.Method, validator, err, pan)}, nil)
+			}
+		}
+	}
+	binding.ResetValidator()
+	v := bindT{Age: 7, Name: "n", Ok: true, Tags: []string{"t"}}
+	for _, media := range []string{"application/json", "text/xml", "application/x-www-form-urlencoded"} {
+		body, ctype := bodyFor(media, v)
+		req := mkReq("POST", "/b", body, ctype)
+		req.ContentLength = -1 // Transfer-Encoding: chunked
+		var got bindT
+		err, pan := safeBind(func() error { return binding.Auto(req, &got) })
+		s.Compared++
+		if pan != nil || err != nil || got.Name != "n" || got.Age != 7 {
+			s.mismatch(map[string]any{"kind": "bind", "aspect": "roundtrip", "what": fmt.Sprintf(
+				"%s body of unknown length (ContentLength -1): bound %+v err=%v panic=%v", media, got, err, pan)}, nil)
+		}
+	}
+}
+
 // malformed input yields an error and never a panic
 func bindMalformed(s *Summary) {
+	bindGating(s)
 	v := bindT{Age: 42, Name: "a&=é<", Ok: true, Tags: []string{"x", "y"}}
 	try := func(method, media, body string, mustErr bool) {
 		_, ctype := bodyFor(media, v)
